@@ -1403,6 +1403,18 @@ class UnitDatabase(Singleton):
                     unit_exp[0] = used_unit_for_quantity_type
         return category_to_unit_and_exp1, category_to_unit_and_exp2, value1, value2
 
+    def _UnitRatio(self, quantity_type: str, from_unit: str, to_unit: str) -> float:
+        """
+        How many `to_unit` make one `from_unit`, offsets left aside. The size of each unit in base
+        units is taken on the unit's own scale: subtracting two converted values instead loses every
+        digit when one unit has an offset and the other is tiny (pPa against bar(g)).
+        """
+        from_info = self.GetInfo(quantity_type, from_unit)
+        to_info = self.GetInfo(quantity_type, to_unit)
+        from_size = from_info.tobase(1.0) - from_info.tobase(0.0)
+        to_size = to_info.tobase(1.0) - to_info.tobase(0.0)
+        return from_size / to_size
+
     def _ConvertMatching(
         self, quantity_type: str, from_unit: str, to_unit: str, exp: int, value: Any
     ) -> Any:
@@ -1412,9 +1424,7 @@ class UnitDatabase(Singleton):
         """
         if exp == 1 or from_unit == to_unit:
             return self.Convert(quantity_type, from_unit, to_unit, value)
-        factor = self.Convert(quantity_type, from_unit, to_unit, 1.0) - self.Convert(
-            quantity_type, from_unit, to_unit, 0.0
-        )
+        factor = self._UnitRatio(quantity_type, from_unit, to_unit)
         factor = factor**exp
         if isinstance(value, (list, tuple)):
             return type(value)(v * factor for v in value)
